@@ -55,7 +55,7 @@ def run_shard(pid, tier, seed, shard, nshards, timeout):
 
 
 def merge(results):
-    out = dict(counters={}, distinct=set(), samples=[], violations=[], inconclusive=[], classes={},
+    out = dict(counters={}, distinct=set(), samples=[], violations=[], inconclusive=[], case_notes=[], classes={},
                evaluations=0, extra={})
     for r in results:
         if 'inconclusive' in r:
@@ -78,7 +78,7 @@ def merge(results):
             else:
                 out['extra'][k] = v
         for m in r.get('notes', []):
-            out['inconclusive'].append(m)
+            out['case_notes'].append(m)
         for f, d in r.get('reach', {}).items():
             for q, ls in d.items():
                 out.setdefault('reach', {}).setdefault(f, {}).setdefault(q, set()).update(ls)
@@ -153,6 +153,13 @@ def conclude(pid, mod, tier, seed, plan, m, wall):
             inconclusive.append('deciding monitor counter %r is zero' % c)
     if nontrivial < 2:
         inconclusive.append('fewer than 2 distinct non-trivial cases observed')
+    # Single cases that could not be judged (the harness itself failed on them, a child process timed out...) are never counted
+    # as held: they are listed.  A handful of them among thousands does not make the whole run inconclusive - more than that does
+    # (a change to the code under test that makes the harness fail shows up in many cases, not in one).
+    case_notes = list(m['case_notes'])
+    tolerated = max(2, m['evaluations'] // 2000)
+    if len(case_notes) > tolerated:
+        inconclusive.extend(case_notes)
     ev = dict(
         property_id=pid, tier=tier, seed=seed, level=getattr(mod, 'LEVEL', 'exploration'),
         coverage=dict(
@@ -161,7 +168,8 @@ def conclude(pid, mod, tier, seed, plan, m, wall):
             counters=dict(sorted(m['counters'].items())),
             distinct_by_class={k: len(v) for k, v in sorted(m['classes'].items())},
             known_findings_seen={k: len(v) for k, v in known_seen.items()},
-            inconclusive=inconclusive, shards=plan.get('shards', NPROC), plan=plan,
+            inconclusive=inconclusive, inconclusive_cases=case_notes[:20], inconclusive_cases_count=len(case_notes),
+            shards=plan.get('shards', NPROC), plan=plan,
             repo=REPO,
             code_under_test_reached=reach_summary(pid, m.get('reach', {})),
             **{k: v for k, v in m['extra'].items()}),
@@ -179,6 +187,9 @@ def conclude(pid, mod, tier, seed, plan, m, wall):
         print(ln)
     for v in new_viol[:5]:
         print('  witness[%s]: %s' % (v.get('key'), (v.get('msg') or '')[:600]))
+    if case_notes and len(case_notes) <= tolerated:
+        print('NOTE: %d of %d cases could not be judged and are not counted as held: %s' % (len(case_notes), m['evaluations'],
+                                                                                         case_notes[0][:300].replace('\n', ' ')))
     if new_viol:
         return 1
     if inconclusive:
